@@ -807,3 +807,72 @@ Proof.
     + intros E. rewrite gdist1g_entry by (exact L || exact Hj). now rewrite E, Z.eqb_refl.
     + intros O. apply gdist1g_agrees_gdist2g; [exact L | exact Hj | exact O | |]; apply P, nth_In; unfold n in Hj; lia.
 Qed.
+
+(** * Part 9: remove_discrepancies leaves the old spline in place *)
+Definition wit_rd : list row := [mkRow 1 10 0 []; mkRow 1 20 (1#2) []; mkRow 1 30 (1#4) []; mkRow 1 40 (3#4) []].
+
+(** after remove_discrepancies the map is well-formed and congruent, yet the object interpolates with the spline of the
+    old rows: between the flanking markers 20 and 40 of the new map the value at 30 is 1/4, not on their chord (5/8),
+    and the order of 20 -> 1/2, 30 -> 1/4 is reversed *)
+Lemma stale_spline_refuted : exists rows c x i,
+  wf_map (rd_rows rows) /\ is_congruent (rd_rows rows) = true /\
+  let k := knots (rd_rows rows) c in
+  (S i < length k)%nat /\ fst (nth i k (0%Z, 0%Q)) <= x <= fst (nth (S i) k (0%Z, 0%Q)) /\
+  exists g, interp_pos rows (c, x) = Fin g /\
+    ~ (g == chord x (fst (nth i k (0%Z, 0%Q))) (snd (nth i k (0%Z, 0%Q))) (fst (nth (S i) k (0%Z, 0%Q))) (snd (nth (S i) k (0%Z, 0%Q))))%Q.
+Proof.
+  exists wit_rd, 1, 30, 1%nat. split; [|split; [reflexivity|]].
+  - split; [|split].
+    + change (rd_rows wit_rd) with (sort_rows [mkRow 1 10 0 []; mkRow 1 20 (1#2) []; mkRow 1 40 (3#4) []]). apply sort_rows_strongly.
+    + unfold distinct_pos. vm_compute. repeat constructor; cbn; intuition discriminate.
+    + intros c H. apply existsb_exists in H as (r & Hr & E). apply Z.eqb_eq in E. subst c.
+      vm_compute in Hr. repeat (destruct Hr as [<-|Hr]; [vm_compute; lia|]). destruct Hr.
+  - cbv zeta. split; [vm_compute; lia|]. split; [vm_compute; split; discriminate|].
+    eexists. split; [vm_compute; reflexivity|]. vm_compute. discriminate.
+Qed.
+
+(** with the spline rebuilt from the reduced rows the law holds again: this is [interp_linear_between] on [rd_rows rows] *)
+Lemma stale_spline_partial rows : is_congruent rows = true -> rd_rows rows = rows.
+Proof. intros H. unfold rd_rows. now rewrite H. Qed.
+
+(** lemmas in the shape used by Props/C11.v *)
+Lemma constructor_sorts input : Permutation (gm_rows input) input /\ StronglySorted key_le (gm_rows input).
+Proof. split; [apply sort_rows_perm | apply sort_rows_strongly]. Qed.
+
+Lemma group_metadata chrs :
+  (let '(names, st, sp, ln) := group_meta chrs in
+   length st = length names /\ length sp = length names /\ length ln = length names /\ decode_runs (combine names ln) = chrs)
+  /\ (Sorted Z.le chrs -> Sorted Z.lt (map fst (runs chrs))).
+Proof. split; [apply group_meta_shape | apply runs_names_incr]. Qed.
+
+Lemma interp_extrapolates pts : (2 <= length pts)%nat -> incr (map fst pts) ->
+  let n := length pts in
+  (forall x, (x <= fst (nth 0 pts (0%Z, 0%Q)))%Z ->
+     (interp1 pts x == chord x (fst (nth 0 pts (0%Z, 0%Q))) (snd (nth 0 pts (0%Z, 0%Q))) (fst (nth 1 pts (0%Z, 0%Q))) (snd (nth 1 pts (0%Z, 0%Q))))%Q) /\
+  (forall x, (fst (nth (n - 1) pts (0%Z, 0%Q)) <= x)%Z ->
+     (interp1 pts x == chord x (fst (nth (n - 2) pts (0%Z, 0%Q))) (snd (nth (n - 2) pts (0%Z, 0%Q)))
+                              (fst (nth (n - 1) pts (0%Z, 0%Q))) (snd (nth (n - 1) pts (0%Z, 0%Q))))%Q).
+Proof. intros Hn Hx n. split; [apply interp1_left | apply interp1_right]; assumption. Qed.
+
+Lemma interp_off_map_missing rows c x :
+  (has_chr rows c = false -> interp_pos rows (c, x) = NaN) /\
+  (has_chr rows c = true -> interp_pos rows (c, x) = Fin (interp1 (spline_knots rows c) x)).
+Proof. split; [apply interp_off_map | apply interp_on_map]. Qed.
+
+Lemma spline_independent_of_array_order input : distinct_pos input ->
+  (forall cx, interp_pos input cx = interp_pos (gm_rows input) cx) /\
+  (forall c, spline_knots input c = knots (gm_rows input) c) /\
+  (forall c, spline_knots (gm_rows input) c = knots (gm_rows input) c).
+Proof.
+  intros ND. split; [intros cx; now apply interp_auto_group_independent|]. split; [intros c; now apply spline_knots_order_independent|].
+  intros c. apply spline_knots_sorted; [apply sort_rows_strongly|].
+  unfold distinct_pos, gm_rows. apply (Permutation_NoDup (l := map pos input)); [|exact ND]. apply Permutation_map. symmetry. apply sort_rows_perm.
+Qed.
+
+Lemma hyps_satisfiable : wf_map (gm_rows wit_rows) /\ is_congruent (gm_rows wit_rows) = true /\ distinct_pos wit_rows
+  /\ has_chr (gm_rows wit_rows) 1 = true /\ incr (map fst (knots (gm_rows wit_rows) 1)).
+Proof.
+  destruct wit_wf as [W C]. split; [exact W|]. split; [exact C|]. split.
+  - unfold distinct_pos, wit_rows. cbn. repeat constructor; cbn; intuition discriminate.
+  - split; [reflexivity|]. destruct W as (S & ND & _). now apply knots_incr.
+Qed.
